@@ -569,6 +569,11 @@ def opTextObjWord (req : Json) : Json :=
   let cls : List Nat := (jarr req "cls").toList.map (fun x => x.getNat?.toOption.getD 3)
   Json.mkObj [("mk", mkJson (evalTextObjWord ⟨cls⟩ (jnat req "cur") (jbool req "big") (jbool req "around")))]
 
+/-- `{"op":"paragraph","gs":[..],"cur":n,"excl":b,"fwd":b,"count":n,"has_verb":b}` -/
+def opParagraph (req : Json) : Json :=
+  let s : MS := ⟨gsOf req, jnat req "cur", jbool req "excl", false, []⟩
+  Json.mkObj [("mk", mkJson (evalParagraph s (jbool req "fwd") (jnat req "count") (jbool req "has_verb")))]
+
 def dispatch (req : Json) : Json :=
   match jstr req "op" with
   | "ping" => Json.mkObj [("pong", true)]
@@ -593,6 +598,7 @@ def dispatch (req : Json) : Json :=
   | "charsearch" => opCharSearch req
   | "cursor_after" => opCursorAfter req
   | "textobj_word" => opTextObjWord req
+  | "paragraph" => opParagraph req
   | op => Json.mkObj [("err", Json.str s!"unknown op {op}")]
 
 partial def loop (h : IO.FS.Stream) (out : IO.FS.Stream) : IO Unit := do
